@@ -556,6 +556,32 @@ func packetSizes(r *ev.Run, ret *retained) int64 {
 }
 
 // c13Packets (C13): history independence of Len/Marshal/decode for packet kinds.
+// rwValue is a header kind that encodes through Read and decodes through Write (DHCP, LLDP).
+type rwValue interface {
+	Read([]byte) (int, error)
+	Write([]byte) (int, error)
+	Len() uint16
+}
+
+// rwAdapter lets the sequence explorer treat such a value like the others: M is a Read into a buffer
+// with room to spare; R and Z (shortRead) are Reads into a buffer of half the size and of no size.
+type rwAdapter struct{ x rwValue }
+
+func (a rwAdapter) Len() uint16 { return a.x.Len() }
+func (a rwAdapter) MarshalBinary() ([]byte, error) {
+	buf := make([]byte, 8192)
+	n, err := a.x.Read(buf)
+	return buf[:n], err
+}
+func (a rwAdapter) shortRead(size int) string {
+	buf := make([]byte, size)
+	n, err := a.x.Read(buf)
+	if err != nil {
+		return "error: " + err.Error()
+	}
+	return fmt.Sprintf("%d:%x", n, buf[:n])
+}
+
 func c13Packets(r *ev.Run, depth int) (subjects, seqs int64) {
 	seen := map[string]bool{}
 	corpus.Packets(false, func(t *wire.N) {
@@ -575,7 +601,19 @@ func c13Packets(r *ev.Run, depth int) (subjects, seqs int64) {
 				}
 				le, ok := v.(lenEnc)
 				if !ok {
-					return nil, nil, nil
+					// DHCP and LLDP encode through Read(buf) and decode through Write(buf)
+					x, isRW := v.(rwValue)
+					if !isRW {
+						return nil, nil, nil
+					}
+					return rwAdapter{x}, func() lenEnc { return rwAdapter{x} }, func(b []byte) (any, error) {
+						f, ok := bind.FreshPkt(kind).(rwValue)
+						if !ok {
+							return nil, fmt.Errorf("no decoder")
+						}
+						_, err := f.Write(b)
+						return f, err
+					}
 				}
 				return le, func() lenEnc {
 						e := protocol.NewEthernet()
